@@ -28,9 +28,11 @@ ASSUMPTIONS = [
 
 LATTICE = [0, 1, 2, 3]
 STAGE = st.fixed_dictionaries({
-    "mode": st.sampled_from(["deferred", "deferred", "sync", "chained"]),
+    "mode": st.sampled_from(["deferred", "deferred", "sync", "chained", "fired"]),      # fired: returns an already-fired Deferred
     "delay": st.sampled_from(LATTICE),
     "result": st.sampled_from(["ok", "ok", "ok", "ok", "ok", "error", "fail", "skip", "error_falsy"]),   # error_falsy: an exception whose bool() is False
+    "value": st.sampled_from([None, None, "Foo", 0, [], True]),       # what a successful stage returns / its Deferred fires with
+    "expect": st.sampled_from([False] * 9 + [True]),                  # the stage records a failed expectThat
     "never": st.sampled_from([False] * 9 + [True]),
     "leave_call": st.one_of(st.none(), st.none(), st.none(), st.sampled_from([0, 1, 2, 5, 9])),
     "log_err": st.sampled_from(["no"] * 7 + ["one", "two_flush_one", "one_flush_it"]),
@@ -45,9 +47,10 @@ CASE_RANDOM = st.fixed_dictionaries({
 
 
 QUIET = st.fixed_dictionaries({
-    "mode": st.sampled_from(["deferred", "deferred", "sync", "chained"]), "delay": st.sampled_from(LATTICE), "result": st.just("ok"),
+    "mode": st.sampled_from(["deferred", "deferred", "sync", "chained", "fired"]), "delay": st.sampled_from(LATTICE), "result": st.just("ok"),
+    "value": st.sampled_from([None, "Foo", 0, []]), "expect": st.just(False),
     "never": st.just(False), "leave_call": st.none(), "log_err": st.just("no"), "drop_failed": st.just(False)})
-SINGLE_FAULT = st.sampled_from([("result", "error"), ("result", "fail"), ("result", "skip"), ("result", "error_falsy"), ("result", "error"),
+SINGLE_FAULT = st.sampled_from([("expect", True), ("result", "error"), ("result", "fail"), ("result", "skip"), ("result", "error_falsy"), ("result", "error"),
                                 ("log_err", "one"), ("log_err", "two_flush_one"), ("drop_failed", True), ("leave_call", 5), ("never", True)])
 
 
@@ -107,6 +110,8 @@ def model(spec):
             bad.add("error")
         if s["drop_failed"]:
             bad.add("error")
+        if s.get("expect"):
+            bad.add("failure")          # a failed expectThat makes the test fail once it has finished
         dur = s["delay"] if s["mode"] in ("deferred", "chained") else 0
         fire = None if (s["mode"] in ("deferred", "chained") and s["never"]) else t + dur
         cut = min([x for x in (T, ti) if x is not None])
@@ -145,7 +150,10 @@ def _quiet_twisted():
     if not _QUIET[0]:
         from twisted.logger import globalLogBeginner
         try:
-            globalLogBeginner.beginLoggingTo([lambda event: None], redirectStandardIO=False, discardBuffer=True)
+            # two new-style observers and a legacy one: what the runner removes and puts back is a list, in order
+            globalLogBeginner.beginLoggingTo([lambda event: None, lambda event: None], redirectStandardIO=False, discardBuffer=True)
+            from twisted.python import log as legacy_log
+            legacy_log.addObserver(lambda event_dict: None)
         except Exception:
             pass
         _QUIET[0] = True
@@ -190,10 +198,15 @@ def run_case(spec):
                 from vp.programs import FalsyError
                 return {"error": RuntimeError("stage-MARK"), "fail": case.failureException("stage-MARK"), "error_falsy": FalsyError("stage-MARK"),
                         "skip": case.skipException("stage-MARK")}[s["result"]]
+            if s.get("expect"):
+                from testtools.matchers import Equals
+                case.expectThat(1, Equals(2))
             if s["mode"] == "sync":
                 if s["result"] != "ok":
                     raise exc()
-                return None
+                return s.get("value")
+            if s["mode"] == "fired":
+                return defer.succeed(s.get("value")) if s["result"] == "ok" else defer.fail(exc())
             d = defer.Deferred()
             if s["mode"] == "chained":
                 # already fired, but its chain is paused on an inner Deferred that has not fired yet
@@ -204,7 +217,7 @@ def run_case(spec):
             if s["never"]:
                 return outer
             if s["result"] == "ok":
-                reactor.callLater(s["delay"], d.callback, None)
+                reactor.callLater(s["delay"], d.callback, s.get("value"))
             else:
                 reactor.callLater(s["delay"], d.errback, exc())
             return outer
@@ -215,7 +228,11 @@ def run_case(spec):
             def setUp(self):
                 super().setUp()
                 for i, c in enumerate(spec["cleanups"]):
-                    self.addCleanup(lambda i=i, c=c: act(self, "cleanup%d" % i, c))
+                    if i % 2:
+                        self.addCleanup(lambda i=i, c=c: act(self, "cleanup%d" % i, c))
+                    else:
+                        # positional and keyword arguments travel with the registration
+                        self.addCleanup(lambda name, stage=None: act(self, name, stage), "cleanup%d" % i, stage=c)
                 return act(self, "setUp", spec["setUp"])
 
             def test_it(self):
